@@ -6,7 +6,7 @@ from .. import env, coq, runner, gates
 
 LEVEL = 'translation_validation'
 META = dict(
-    text='Coq theorems: a model of the control flow of kak_canonicalize_vector on exact coefficients (any rational multiple of pi/4, any atol) reaches the canonical Weyl chamber for every input, its trace of shifts/negations/swaps replays to the returned vector and each step keeps the implied two-qubit matrix (generic ring), and the validators (reconstructs, count_2q, kak_canonical) are sound; on every run the model is compared with cirq.kak_canonicalize_vector by vm_compute (coefficients, phase and the four single-qubit corrections, exactly), and every routine of a frozen list of decomposition / synthesis routines is run on a special-case corpus (identity, local gates, CNOT/iSWAP/SWAP classes, Weyl-chamber vertices/edges/faces, degenerate eigenvalues, +-1e-10..1e-8 perturbations of each boundary) and on seeded random unitaries x option flags; the returned factors / operations are recomposed inside Coq (float instance of the reference semantics) and must reproduce the input within the documented tolerance, with the promised factor forms and gate counts.',
+    text='Coq theorems: a model of the control flow of kak_canonicalize_vector on exact coefficients (any rational multiple of pi/4, any atol) reaches the canonical Weyl chamber for every input, its trace of shifts/negations/swaps replays to the returned vector and each step keeps the implied two-qubit matrix (generic ring), and the validators (reconstructs, count_2q, kak_canonical) are sound; the minimal CNOT/CZ count is modelled as a function of the canonical coefficients (cz_class: 0 at the origin, 1 at (pi/4,0,0), 2 on the rest of the face z=0, 3 elsewhere) with its tolerance-aware validator proved exact at zero tolerance, witness circuits for one and two CNOTs, and the quantity num_cnots_required looks at (trace of u YY u^T YY) proved to be 4(cos2x cos2y cos2z + i sin2x sin2y sin2z) on exp(i(xXX+yYY+zZZ)) and blind to single-qubit gates; on every run the model is compared with cirq.kak_canonicalize_vector by vm_compute (coefficients, phase and the four single-qubit corrections, exactly), and every routine of a frozen list of decomposition / synthesis routines is run on a special-case corpus (identity, local gates, CNOT/iSWAP/SWAP classes, Weyl-chamber vertices/edges/faces, degenerate eigenvalues, +-1e-10..1e-8 perturbations of each boundary) and on seeded random unitaries x option flags; the returned factors / operations are recomposed inside Coq (float instance of the reference semantics) and must reproduce the input within the documented tolerance, with the promised factor forms and gate counts; num_cnots_required, kak_vector, extract_right_diag and two_qubit_matrix_to_cz_isometry are judged on the same corpus against the coefficients each point was built from or against kak_decomposition coefficients validated in the same Coq expression.',
     note='Translation validation: the quantifier over unitaries is sampled (corpus + seeded random), the evidence says how. Trusted: Coq kernel; the float instance (binary64 inside vm_compute, no proof about rounding); numpy/scipy/LAPACK inside Cirq; the Python adapters (operation -> Gallina term through the shared gate vocabulary; gates outside it enter through cirq.unitary, counted in the evidence). Where a docstring states no tolerance the routine\'s own atol x 10 is used (listed per routine in ROUTINES).',
     technique='Rocq/Coq proof (lia, ring) of the canonicaliser model and of the validators + vm_compute translation validation of every returned decomposition',
 )
@@ -490,8 +490,9 @@ def residual(a, b, phase):
     return float(np.max(np.abs(a - b)))
 
 
-def add_ops_checks(ctx, conv, checks, routine, opts, name, u, ops, qubits, tol, phase, count=None, nontrivial=True, extra=None):
-    """count: (bound, exact: bool, native predicate, text) or None.  Appends the Coq comparisons for one returned op list."""
+def add_ops_checks(ctx, conv, checks, routine, opts, name, u, ops, qubits, tol, phase, count=None, nontrivial=True, extra=None, cmp=None):
+    """count: (bound, exact: bool, native predicate, text) or None.  Appends the Coq comparisons for one returned op list.
+    cmp: (validator name, text) replacing the comparison of the whole unitary (isometries compare the columns that matter)."""
     cirq = conv.cirq
     ops = list(cirq.flatten_to_ops(ops))
     rep = dict(kind='synth', routine=routine, opts=opts, input_class=name, matrix=cmat(u))
@@ -506,12 +507,12 @@ def add_ops_checks(ctx, conv, checks, routine, opts, name, u, ops, qubits, tol, 
         return
     n = len(qubits)
     ctx.count(stream, [name, rep['matrix']], nontrivial, sample=dict(input_class=name, operations=[str(o) for o in ops][:12], n_ops=len(ops)))
-    cmpf = 'reconstructs_phase_f' if phase else 'reconstructs_f'
+    cmpf = cmp[0] if cmp else 'reconstructs_phase_f' if phase else 'reconstructs_f'
     try:
-        res = residual(numpy_unitary(cirq, ops, qubits), u, phase)
+        res = residual(numpy_unitary(cirq, ops, qubits)[:, :2] if cmp else numpy_unitary(cirq, ops, qubits), u[:, :2] if cmp else u, phase)
     except Exception:
         res = None
-    what = (f'{stream} on {name}: the product of the returned operations differs from the input'
+    what = (f'{stream} on {name}: {cmp[1] if cmp else "the product of the returned operations differs from the input"}'
             f'{" (up to global phase)" if phase else ""} by more than the documented tolerance {tol:g} (numpy estimate of the residual: {res})')
     checks.append((stream, f'{cmpf} {fl(tol)} {gates.nlist([2] * n)} {term} {gates.fmat(u)}', what,
                    dict(rep, signature=f'{routine}:reconstruct:' + (extra or {}).get('sig_prefix', '') + cls(name), loose=f'{cmpf} {fl(10 * tol)} {gates.nlist([2] * n)} {term} {gates.fmat(u)}',
@@ -680,6 +681,151 @@ def synth2q_stream(ctx, cirq, mods, conv, inputs, checks, sub):
             todo += [('two_qubit_matrix_to_sycamore_operations', dict(clean_operations=k % 8 != 3))]
         for routine, opts in todo:
             run_2q(ctx, cirq, mods, conv, checks, routine, opts, name, u, hint)
+
+
+# =====================================================================================================
+# Stream 3b: local-equivalence class routines — num_cnots_required, kak_vector, extract_right_diag, cz isometry
+# =====================================================================================================
+ROUTINES.update({
+    'num_cnots_required': 'docstring: "the min number of CNOT/CZ gates required by a two-qubit unitary"; atol = "the absolute tolerance used to make this judgement". '
+                          'Reference: the class of the canonical KAK coefficients (Xform/KakCount.v cz_class: 0 at the origin, 1 at (pi/4,0,0), 2 on the rest of the face z=0, 3 elsewhere). '
+                          'The coefficients are those the corpus point was built from, or (named gates, random unitaries) those returned by kak_decomposition, whose recomposition is '
+                          'validated in the same run. Tolerance: within atol/50 of a stratum (sup norm on the coefficients) only the stratum\'s count is accepted, between atol/50 and 100*atol '
+                          '(sqrt(atol) around the origin, where the routine\'s test is quadratic) either, beyond that the stratum\'s count is wrong (cz_count_ok_f).',
+    'kak_vector': 'docstring: the KAK vector of the unitary (or of each unitary of a (...,4,4) array), canonical as kak_canonicalize_vector documents (atol = "how close k_x must be to pi/4 to '
+                  'guarantee k_z >= 0"). Compared with the coefficients of the validated kak_decomposition of the same unitary, or their mirror image (pi/2-x, y, -z); no tolerance on the '
+                  'value stated: atol(1e-8) x 10 = 1e-7.',
+    'extract_right_diag': 'docstring: a diagonal (2-CNOT) unitary D such that U @ D needs only two CNOT when U is a 3-CNOT unitary. D must be a diagonal unitary and the validated KAK '
+                          'coefficients of U @ D must have |z| <= 1e-7 (class <= 2). Run on the inputs whose coefficients have |z| > 1e-6.',
+    'two_qubit_matrix_to_cz_isometry': 'docstring: at most 2 CZs + single-qubit rotations implementing the action of the matrix "assuming q0 is initially |0>": the first two columns of the '
+                                       'circuit\'s unitary equal those of the matrix up to one phase; atol = "limit on the amount of absolute error": residual <= atol; partial CZs only when allowed.',
+})
+ROUTINES_CLASS = ['num_cnots_required', 'kak_vector', 'extract_right_diag', 'two_qubit_matrix_to_cz_isometry']
+
+
+def py_cz_class(x, y, z, eps=1e-12):
+    """Diagnostic text only (the deciding comparison is cz_count_ok_f inside Coq)."""
+    if max(abs(x), abs(y), abs(z)) <= eps:
+        return 0
+    if max(abs(x - PI4), abs(y), abs(z)) <= eps:
+        return 1
+    return 2 if abs(z) <= eps else 3
+
+
+def kak_cert(cirq, m):
+    """kak_decomposition as a certificate producer: -> (k, (x, y, z), Coq expression `recomposes to m, unitary factors, canonical`)."""
+    k = cirq.kak_decomposition(m)
+    x, y, z = (float(c) for c in k.interaction_coefficients)
+    a0, a1 = k.single_qubit_operations_after
+    b0, b1 = k.single_qubit_operations_before
+    rec = f'(kak_recompose {gates.fc(k.global_phase)} {gates.fmat(a0)} {gates.fmat(a1)} {gates.fmat(b0)} {gates.fmat(b1)} {trig_term(x, y, z)})'
+    fac = ' && '.join(f'is_unitary_f {fl(1e-7)} 2 {gates.fmat(f)}' for f in (a0, a1, b0, b1))
+    return k, (x, y, z), rec, f'{fac} && kak_canonical_f {fl(1e-9)} {fl(x)} {fl(y)} {fl(z)}'
+
+
+def run_class(ctx, cirq, mods, conv, checks, routine, opts, name, u, hint, batch_row=None):
+    """One invocation of one class routine on one input + its Coq comparisons.  hint: the coefficients the input was built from."""
+    nt = not name.startswith('identity')
+    rep = dict(kind='class', routine=routine, opts=opts, input_class=name, matrix=cmat(u), hint=list(hint) if hint is not None else None)
+    okey = ','.join(f'{k}={v}' for k, v in sorted(opts.items()))
+    stream = routine + (f'[{okey}]' if okey else '')
+
+    def raised(e):
+        ctx.violation(f'{routine}:raises:{cls(name)}', f'{routine}({opts}) raised {type(e).__name__}: {e} on {name}', rep)
+
+    try:
+        k, kxyz, rec, cert = kak_cert(cirq, u)
+    except Exception:
+        return                                      # reported by the kak_decomposition stream
+    x, y, z = (float(c) for c in hint) if hint is not None else kxyz
+    src = 'the KAK coefficients it was built from' if hint is not None else 'its KAK coefficients (kak_decomposition, recomposition validated)'
+    certified = 'true' if hint is not None else f'(fcll_close {fl(1e-7)} {rec} {gates.fmat(u)} && {cert})'
+    if routine == 'num_cnots_required':
+        atol = opts.get('atol', 1e-8)
+        try:
+            n = cirq.num_cnots_required(u, **opts)
+        except Exception as e:
+            return raised(e)
+        ctx.count(stream, [name, rep['matrix']], nt, sample=dict(input_class=name, coefficients=[x, y, z], returned=int(n) if isinstance(n, (int, np.integer)) else repr(n)))
+        if not isinstance(n, (int, np.integer)) or not 0 <= int(n) <= 3:
+            ctx.violation(f'{routine}:form:{cls(name)}', f'{stream} on {name}: returned {n!r}, not a count in 0..3', rep)
+            return
+        lo, m = atol / 50, 100 * atol
+        m0 = max(m, math.sqrt(atol))
+        want = py_cz_class(x, y, z, lo)
+        checks.append((stream, f'negb {certified} || cz_count_ok_f {fl(lo)} {fl(m0)} {fl(m)} {fl(x)} {fl(y)} {fl(z)} {int(n)}',
+                       f'{stream} on {name}: returned {int(n)}, but {src} ({x!r}, {y!r}, {z!r}) put the unitary '
+                       f'{["at the origin: a product of single-qubit gates, 0 CNOT/CZ", "at the vertex (pi/4,0,0): the CNOT/CZ class, exactly 1 CNOT/CZ", "on the face z=0 away from the origin and from (pi/4,0,0): 2 CNOT/CZ are necessary and sufficient", "off the face z=0: 3 CNOT/CZ are necessary"][want]}'
+                       f' (tolerance zones: {lo:g} / {m:g}, {m0:g} around the origin)',
+                       dict(rep, signature=f'{routine}:count:{cls(name)}')))
+    elif routine == 'kak_vector':
+        try:
+            v = batch_row if batch_row is not None else cirq.kak_vector(u, **opts)
+            v = [float(c) for c in np.asarray(v).reshape(3)]
+        except Exception as e:
+            return raised(e)
+        atol = opts.get('atol', 1e-8)
+        ctx.count(stream, [name, rep['matrix']], nt, sample=dict(input_class=name, kak_vector=v, kak_decomposition_coefficients=list(kxyz)))
+        cx, cy, cz = kxyz
+        cert_u = f'(fcll_close {fl(1e-7)} {rec} {gates.fmat(u)} && {cert})'
+        checks.append((stream, f'negb {cert_u} || kak_vector_ok_f {fl(atol)} {fl(1e-7)} {fl(v[0])} {fl(v[1])} {fl(v[2])} {fl(cx)} {fl(cy)} {fl(cz)}',
+                       f'{stream} on {name}: returned {v}, which is not canonical (0<=|z|<=y<=x<=pi/4, z>=0 when x is within atol of pi/4) or differs by more than 1e-7 from the '
+                       f'coefficients {list(kxyz)} of the validated kak_decomposition of the same unitary and from their mirror image (pi/2-x, y, -z)',
+                       dict(rep, signature=f'{routine}:value:{cls(name)}')))
+    elif routine == 'extract_right_diag':
+        if abs(z) <= 1e-6:
+            return
+        try:
+            d = np.asarray(cirq.linalg.extract_right_diag(u), dtype=complex)
+            ud = u @ d
+            k2, (x2, y2, z2), rec2, cert2 = kak_cert(cirq, ud)
+        except Exception as e:
+            return raised(e)
+        ctx.count(stream, [name, rep['matrix']], nt, sample=dict(input_class=name, coefficients=[x, y, z], diagonal=[str(complex(c)) for c in np.diag(d)], coefficients_of_U_D=[x2, y2, z2]))
+        um, dm = gates.fmat(u), gates.fmat(d)
+        checks.append((stream, f'is_diagonal_f {fl(1e-8)} {dm} && is_unitary_f {fl(1e-7)} 4 {dm} && '
+                               f'(negb (fcll_close {fl(1e-7)} {rec2} (mmul FOps {um} {dm}) && {cert2}) || PrimFloat.leb (PrimFloat.abs {fl(z2)}) {fl(1e-7)})',
+                       f'{stream} on {name} (3-CNOT unitary, coefficients ({x!r}, {y!r}, {z!r})): D = diag{[complex(c) for c in np.diag(d)]} is not a diagonal unitary, or U @ D still needs three CNOT: '
+                       f'its validated KAK coefficients are ({x2!r}, {y2!r}, {z2!r}) with |z| > 1e-7',
+                       dict(rep, signature=f'{routine}:class:{cls(name)}')))
+    elif routine == 'two_qubit_matrix_to_cz_isometry':
+        q = cirq.LineQubit.range(2)
+        try:
+            ops = cirq.two_qubit_matrix_to_cz_isometry(q[0], q[1], u, **opts)
+        except Exception as e:
+            return raised(e)
+        partial = opts['allow_partial_czs']
+        add_ops_checks(ctx, conv, checks, routine, opts, name, u, ops, q, opts['atol'], True,
+                       (2, False, is_cz(partial), 'at most 2 two-qubit gates, all CZ' + (' powers' if partial else ' (no partial CZ)')), nt,
+                       extra=dict(kind='class', hint=rep['hint']),
+                       cmp=('isometry_phase_f', 'the first two columns (first qubit in |0>) of the unitary of the returned operations differ from those of the input'))
+    else:
+        raise KeyError(routine)
+
+
+def class_stream(ctx, cirq, mods, conv, inputs, checks, sub):
+    NC, KV, RD, ISO = ROUTINES_CLASS
+    # kak_vector's array form: one call on the whole corpus, every row judged
+    try:
+        batch = np.asarray(cirq.kak_vector(np.stack([u for _, u, _ in inputs])))
+        if batch.shape != (len(inputs), 3):
+            raise ValueError(f'output shape {batch.shape} for input shape {(len(inputs), 4, 4)}')
+    except Exception as e:
+        ctx.violation('kak_vector:raises:batch', f'kak_vector on the stacked corpus ({len(inputs)}, 4, 4) raised {type(e).__name__}: {e}', dict(kind='class-batch'))
+        batch = None
+    for k, (name, u, hint) in enumerate(inputs):
+        special = not name.startswith('random')
+        rng = name_rng('class:' + name) if special else ctx.rng
+        run_class(ctx, cirq, mods, conv, checks, NC, {}, name, u, hint)
+        if batch is not None:
+            run_class(ctx, cirq, mods, conv, checks, KV, dict(form='array'), name, u, hint, batch_row=batch[k])
+        if k % sub == 0:
+            run_class(ctx, cirq, mods, conv, checks, NC, dict(atol=rng.choice([1e-6, 1e-10, 1e-7])), name, u, hint)
+            run_class(ctx, cirq, mods, conv, checks, KV, {}, name, u, hint)
+        if (special and k % 2 == 0) or k % sub == 0:
+            run_class(ctx, cirq, mods, conv, checks, RD, {}, name, u, hint)
+        if (special and k % 4 == 2) or k % sub == 0:
+            run_class(ctx, cirq, mods, conv, checks, ISO, dict(allow_partial_czs=k % 8 == 2, atol=1e-8, clean_operations=rng.random() < 0.5), name, u, hint)
 
 
 # =====================================================================================================
@@ -1277,6 +1423,7 @@ def run(ctx):
     inputs = two_qubit_inputs(ctx, cirq, 40 * n, full=ctx.tier != 'quick')
     kak_stream(ctx, cirq, inputs, checks)
     synth2q_stream(ctx, cirq, mods, conv, inputs, checks, 8 if ctx.tier == 'quick' else 2)
+    class_stream(ctx, cirq, mods, conv, inputs, checks, 8 if ctx.tier == 'quick' else 2)
     inputs1 = one_qubit_inputs(ctx, cirq, 30 * n)
     one_qubit_stream(ctx, cirq, mods, conv, inputs1, checks)
     linalg_stream(ctx, cirq, inputs1, inputs, checks)
@@ -1312,6 +1459,13 @@ def replay(ctx, data):
         run_cliff(ctx, cirq, mods, conv, checks, data['input_class'], data['n'], [(g, tuple(i)) for g, i in data['spec']])
     elif kind == 'cphase' or (kind == 'synth' and data['routine'] == 'decompose_cphase_into_two_fsim'):
         run_cphase(ctx, cirq, mods, conv, checks, data['input_class'], data['theta'], data['phi'], data['exponent'], data['feasible'])
+    elif kind == 'class' and data['routine'] in ROUTINES_CLASS:
+        opts = dict(data['opts'])
+        if opts.pop('form', None) == 'array':
+            row = np.asarray(cirq.kak_vector(np.stack([from_cmat(data['matrix'])] * 2)))[1]
+            run_class(ctx, cirq, mods, conv, checks, data['routine'], dict(form='array'), data['input_class'], from_cmat(data['matrix']), data.get('hint'), batch_row=row)
+        else:
+            run_class(ctx, cirq, mods, conv, checks, data['routine'], opts, data['input_class'], from_cmat(data['matrix']), data.get('hint'))
     elif kind == 'synth' and data['routine'] in ROUTINES_2Q:
         run_2q(ctx, cirq, mods, conv, checks, data['routine'], data['opts'], data['input_class'], from_cmat(data['matrix']), data.get('hint'))
     else:
